@@ -27,10 +27,20 @@
 (*                          classes that give equal bytes are merged        *)
 (*     composed up to MaxFaults in one canonical order (the faults of a     *)
 (*     plan commute: they touch disjoint bytes; truncation comes last).     *)
+(*     Single faults: every class of every field of the key records (quick: *)
+(*     ELF header, section header 0, the name table's header, the first     *)
+(*     header of every role, every content record; thorough: every record). *)
 (*     Pairs and triples are restricted to fields that one reader loop      *)
-(*     combines (`groups`: the records the constructor reads; a section     *)
-(*     header with the first record of its content; ...), see PairOK.       *)
-(*     This is the `fault_sequences` quantifier and TLC enumerates it.      *)
+(*     combines (`groups`: "ctor" = the records the constructor reads; a    *)
+(*     section / segment header with the first record of its content) and   *)
+(*     to the classes {zero, m32, b63} (thorough: + entm1, fsize); triples  *)
+(*     to the constructor group; see PairOK / TripleOK.  This is the        *)
+(*     `fault_sequences` quantifier and TLC enumerates it.                  *)
+(*     Every emitted plan carries its byte patches, the verdict of (b) and, *)
+(*     for a Substitute fault inside an ELF header field, the field and the *)
+(*     abstract class of the value it leaves there (AClass) - the same      *)
+(*     vocabulary the walker witnesses of FaultWalk.tla use, so that the    *)
+(*     driver can name the loop a runaway plan drives (set inclusion only). *)
 (* (b) CONSTRUCTOR OUTCOME model: Model(B, L) - the decision procedure of   *)
 (*     opening a file as the gABI implies it (magic, EI_CLASS, EI_DATA, ELF *)
 (*     header present, name-table index incl. the SHN_XINDEX escape, the    *)
@@ -49,7 +59,10 @@
 (* and as invariants over all plans: PatchesInFile, PatchesDisjoint,        *)
 (* PlanChangesSeed (no plan is a no-op), TypeOK.                           *)
 (*                                                                         *)
-(* Not modelled: the content of the strings a name resolves to; DWARF.      *)
+(* Not modelled: the content of the strings a name resolves to; DWARF;      *)
+(* relocation, symbol and string content.  Where the gABI says "no section  *)
+(* header table" (e_shoff = 0) the model answers OK without looking at a    *)
+(* name table; a reader that looks anyway is reported as drift.             *)
 (***************************************************************************)
 EXTENDS Elf, TLC, Json, CSV, IOUtils
 
